@@ -3,6 +3,7 @@
 #include "vf.h"
 #include <cocls/coro_queue.h>
 #include <coroutine>
+#include <deque>
 #include <exception>
 
 // Force the one-time allocations of the per-thread ready queue (std::deque map + first node) so that
@@ -39,3 +40,21 @@ inline std::coroutine_handle<> vf_fake_handle(vf_fake_coro &f, int id) {
     f.resume_fn = &vf_fake_resume; f.destroy_fn = &vf_fake_destroy; f.id = id; f.resumed = 0; f.destroyed = 0; f.order = 0;
     return std::coroutine_handle<>::from_address(&f);
 }
+
+// An operation that the harness performs on behalf of ANOTHER thread (injection hooks, vf.h) must see that thread's thread-local coroutine-queue state, not the
+// state of the thread it interrupts: a fresh thread is in normal mode and has an empty ready queue of its own. RAII: swap the state out for the scope.
+struct vf_other_thread {
+    cocls::coro_queue::queue_impl *saved_inst;
+    std::deque<std::coroutine_handle<> > saved_q;
+    vf_other_thread() : saved_inst(cocls::coro_queue::instance) {
+        cocls::coro_queue::instance = nullptr;
+        saved_q.swap(cocls::coro_queue::queue_impl::instance._queue);
+    }
+    ~vf_other_thread() {
+        __CPROVER_assert(cocls::coro_queue::instance == nullptr && cocls::coro_queue::queue_impl::instance._queue.empty(),
+                         "C05 when the outermost activation returns no ready coroutine is left un-run (the other thread's operation)");
+        cocls::coro_queue::queue_impl::instance._queue.swap(saved_q);
+        cocls::coro_queue::instance = saved_inst;
+    }
+    vf_other_thread(const vf_other_thread &) = delete;
+};
